@@ -2,6 +2,7 @@ package rules
 
 import (
 	"fmt"
+	"go/constant"
 	"strings"
 
 	"golang.org/x/tools/go/ssa"
@@ -20,6 +21,8 @@ func checkC17(r *core.Run) {
 	r.Rule("T-paykey: in UpdatePaymentAddress the PaymentAddress/Kid records are written under msg.Did (or the bound DID tested equal to it) and the parsed account address, i.e. the same keys the guards looked up")
 	r.Rule("T-payload: in verifyBindingProof the message passed to signature verification/recovery must data-depend on proof.Did and proof.Timestamp")
 	r.Rule("CAP-did: the nine binding/payment prefixes of module did are written only from {Binding, Update, UpdatePaymentAddress, did genesis, did v2 migration}")
+	r.Rule("T-anchored: identifier-validation patterns (the CAIP-10 account id pattern) are constants anchored with ^ and $")
+	ruleAnchoredPatterns(r, "T-anchored")
 	r.Rule("T-loopvar: in the did message handlers no address of a per-loop variable is stored into a slice/field inside its loop")
 	ruleLoopVarAddr(r, "T-loopvar", "did/keeper.msgServer.")
 	r.Assume(aDeps)
@@ -148,4 +151,63 @@ func checkC17(r *core.Run) {
 		},
 		Allowed: set("did.Binding", "did.Update", "did.UpdatePaymentAddress", "did.InitGenesis", "did.migration.Migrate1to2"),
 	})
+}
+
+// ruleAnchoredPatterns (T-anchored): every regular expression that module code
+// on a consensus path uses to validate an identifier is a constant anchored at
+// both ends (^…$). The account id validated by parseAcccountId is afterwards
+// used verbatim as the key of the account->DID binding while its parsed triple
+// is what the proof is checked against: an unanchored pattern lets
+// "cosmos:chain:addr:suffix" verify as addr but bind under a different key, so
+// one account can be bound twice.
+func ruleAnchoredPatterns(r *core.Run, id string) {
+	n := 0
+	for _, f := range r.P.SortedFuncs(r.ConsensusFuncs()) {
+		if r.P.IsGenerated(f) {
+			continue
+		}
+		for _, g := range append([]*ssa.Function{f}, f.AnonFuncs...) {
+			scanPatterns(r, id, g, &n)
+		}
+	}
+	// package initialisers (patterns compiled once at package level)
+	for _, pk := range r.P.Pkgs {
+		if sp := r.P.SSA.Package(pk.Types); sp != nil {
+			if init := sp.Func("init"); init != nil {
+				scanPatterns(r, id, init, &n)
+			}
+		}
+	}
+	r.Floor("validation_patterns", n, 1)
+}
+
+func scanPatterns(r *core.Run, id string, f *ssa.Function, n *int) {
+	res := r.Resolver(f)
+	cnt := 0
+	for _, b := range f.Blocks {
+		for _, ins := range b.Instrs {
+			c, ok := ins.(ssa.CallInstruction)
+			if !ok {
+				continue
+			}
+			name, _ := res.CalleeName(c.Common())
+			if name != "regexp.MatchString" && name != "regexp.MustCompile" && name != "regexp.Compile" && name != "regexp.Match" {
+				continue
+			}
+			*n++
+			cnt++
+			key := core.Key(id, r.P.Name(f), fmt.Sprintf("%s#%d", name, cnt))
+			k, isC := c.Common().Args[0].(*ssa.Const)
+			if !isC || k.Value == nil {
+				r.Violate(id, key, r.P.Pos(c.Pos()), "validation pattern is not a constant")
+				continue
+			}
+			pat := constant.StringVal(k.Value)
+			if strings.HasPrefix(pat, "^") && strings.HasSuffix(pat, "$") && !strings.HasSuffix(pat, `\$`) {
+				r.Discharge(id, key, r.P.Pos(c.Pos()), "pattern anchored at both ends: "+pat)
+			} else {
+				r.Violate(id, key, r.P.Pos(c.Pos()), fmt.Sprintf("the validation pattern %q is not anchored at both ends: an identifier with extra leading/trailing text passes validation; the account id is then used verbatim as the binding key while only its first three fields are parsed and proof-checked, so \"<ns>:<chain>:<addr>:x\" binds an already bound account a second time", pat))
+			}
+		}
+	}
 }
